@@ -159,6 +159,22 @@ func genLoopOp(h *vh.H, i int) string {
 		}
 	} else if i%12 == 0 {
 		src = "repo:" + repoSources[(i/12)%len(repoSources)]
+	} else if fds, pkgs, ok := compiledFor(h, i); ok {
+		// source (c): a generated j5s bundle compiled by the real compiler
+		_, b, err := wireRoundTrip(fds)
+		if err != nil {
+			return ""
+		}
+		src = "fds:" + vh.Hex(b)
+		h.Count("loop.gen.compiled")
+		if len(pkgs) > 1 && h.Chance(1, 3) {
+			// only the last package is direct: the others (with their .service / .topic
+			// sub-packages) are exported as indirect packages, as far as they are referenced
+			src += "@" + pkgs[len(pkgs)-1]
+			h.Count("loop.gen.indirect-packages")
+		} else {
+			src += "@" + strings.Join(pkgs, ",")
+		}
 	} else {
 		fds := genFileSet(h, false)
 		_, b, err := wireRoundTrip(fds)
@@ -185,6 +201,14 @@ func genLoopOp(h *vh.H, i int) string {
 		}
 	}
 	return "loop " + mode + " " + src + " " + s1
+}
+
+// compiledFor: every fifth op (i%5 == 1) takes its descriptor set from the real j5s compiler.
+func compiledFor(h *vh.H, i int) (*descriptorpb.FileDescriptorSet, []string, bool) {
+	if i%5 != 1 {
+		return nil, nil, false
+	}
+	return genCompiledSet(h)
 }
 
 // rootPackages: the root packages (x.v1 of x.v1.sub) of the generated files, in file order.
